@@ -42,7 +42,9 @@ func evalL22(idx int, k kase, o *outcome) {
 	if hashName == "-" {
 		hashName = "sha256"
 	}
-	res := dl22.RunFull(dl22.Config{Common: k.common(), Policy: k.Policy, Variant: variant, Hash: hashName})
+	cm := k.common()
+	runner := cm.API == "runner"
+	res := dl22.RunFull(dl22.Config{Common: cm, Policy: k.Policy, Variant: variant, Hash: hashName})
 	key := "lindell22-" + variant
 	if res.SetupErr != "" {
 		o.propKey, o.propDetail = key+"-setup-failed", res.SetupErr
@@ -138,7 +140,11 @@ func evalL22(idx int, k kase, o *outcome) {
 	ksum := new(big.Int)
 	for _, id := range res.Quorum {
 		t := res.Trace.Tapes[id]
-		rd := readsTagged(t, "r1")
+		tag := "r1"
+		if runner {
+			tag = "run"
+		}
+		rd := readsTagged(t, tag)
 		if len(rd) < 1 || t.Reads[rd[0]].N != 48 {
 			o.corr = append(o.corr, corrFail{key + "-tape-layout", fmt.Sprintf("party %d: first read of round 1 is not 48 bytes: %s", uint64(id), firstN(t.ReadsText(), 200))})
 			return
@@ -220,6 +226,9 @@ func evalL22(idx int, k kase, o *outcome) {
 		}}
 	}
 	o.model = append(o.model, mk(false, []*dl22.Sig{res.Sig}, "aggregator 0"))
+	if runner {
+		return // the cosigning aggregator is not reachable through the runner API
+	}
 	var by []*dl22.Sig
 	for _, id := range res.Quorum {
 		by = append(by, res.SigBy[id])
